@@ -498,9 +498,11 @@ def search_mutated(ctx: Ctx) -> SearchResult:
 STATEMENTS = {
 	'T1_termination': 'for every rule set passing the decidable check WFRules and every token list, the matcher never runs out of the fuel fuelBound R |tokens| (so the Python recursion/loops terminate)',
 	'T1_wf_py / T1_wf_gram': 'WFRules holds for the translated py_rules() and gram_rules() (kernel-decided over the whole tables)',
-	'T2_all_or_error': 'parse returns a tree only if the match consumed every token; every other non-exceptional outcome is Errors.Syntax',
+	'T2_all_or_error': 'parse returns a tree only if the match consumed every token (steps = #tokens, ghost trace = the input, leaves = the named ones)',
+	'T2_else_syntax': 'when the matcher finishes without consuming everything and the cause token\'s line indexes the source, the outcome is Errors.Syntax',
 	'T3_yield': 'the named-terminal leaves of a successful match, in order, are exactly the consumed tokens that were matched by named terminal rules; the consumed tokens are exactly the span, in source order',
-	'T4_chain': 'a rule of the ladder shape L := (N op)* N yields the flat chain n0 op1 n1 … in source order',
+	'T4_chain': 'a match of a ladder-shaped pattern (N op)* N yields the flat chain n_k o_k … o_1 n_0 in source order, each item a successful match of N resp. op laid end to end over the consumed span',
+	'T4_ladders_py': 'comp_or, comp_and, comp, calc_sum, calc_mul of the generated py table are exactly ladder rules (kernel-decided), chained level by level',
 	'T5_error_line': 'the summary line number is begin_line+1 of an input token, inside [1, #lines] when that token has a non-negative source map',
 	'T5_error_line_counterexample': 'an EOF-derived cause token (source map -1) prints line (0): the unguarded statement is false',
 }
@@ -518,7 +520,7 @@ def run(ctx: Ctx) -> int:
 		partial={
 			'proved': 'termination for well-formed rule sets incl. both shipped sets, all-or-error, yield/order of leaves, flat chains of ladder rules, error-line range under the source-map guard',
 			'correspondence_only': 'the Lean matcher equals SyntaxParser on py_rules()/random rule sets; regexp terminals enter as a classification table evaluated by the real re',
-			'search_only': 'agreement with CPython ast (ordered choice never prefers a wrong alternative on py_gram.lark), acceptance of every derivable sentence',
+			'search_only': 'agreement with CPython ast (ordered choice never prefers a wrong alternative on py_gram.lark; the Prec-based C11.group_partial of the design is not proved), acceptance of every derivable sentence',
 		},
 		assumptions=[
 			'sentences are bounded (≤ ~110 tokens, bracket nesting ≤ 3): the engine is exponential in bracket nesting and recursive (RecursionError beyond the bound is outside the quantifier)',
